@@ -1679,11 +1679,23 @@ class BinBytes8(BinBytes):
     length_bytes = 8
 
 
+def encode_long(value: int, length_format: str) -> bytes:
+    """A little-endian two's-complement integer prefixed with its length in bytes"""
+    if value == 0:
+        data = b""
+    else:
+        data = value.to_bytes(value.bit_length() // 8 + 1, "little", signed=True)
+    return struct.pack(length_format, len(data)) + data
+
+
 class Long1(ConstantInt):
     name = "LONG1"
     num_bytes = 1
     signed = True
     priority = BinInt.priority + 1
+
+    def encode_body(self) -> bytes:
+        return encode_long(self.arg, "<B")
 
 
 class Long4(ConstantInt):
@@ -1691,6 +1703,9 @@ class Long4(ConstantInt):
     num_bytes = 4
     signed = True
     priority = Long1.priority + 1
+
+    def encode_body(self) -> bytes:
+        return encode_long(self.arg, "<i")
 
 
 class Int(ConstantOpcode):
